@@ -181,7 +181,7 @@ Proof.
   destruct pol.
   - (* success *)
     unfold authenticate. cbn [run_seq]. rewrite run_seq_bind, run_get_client. cbn [a_client].
-    change (a_client (s <| a_subject := sub |> <| a_granted := granted |> <| a_granted_res := resources |>)) with (a_client s).
+    change (a_client (s <| a_subject := sub |> <| a_granted := granted |> <| a_granted_res := resources |> <| a_granted_details := details |>)) with (a_client s).
     destruct (lookup_client w st (a_client s)) as [c|] eqn:L; [|exact I].
     match goal with |- match snd (run_seq ?p st) with _ => _ end =>
       assert (H : nojwt_a c (snd (run_seq p st))) by (apply rets_ok_run; unfold save_a; crunchr; leaf) end.
@@ -385,7 +385,7 @@ Proof. apply trace_pw_ok_all. Qed.
    code grant and a JWT from client_credentials *)
 Definition ex_pw_client : client :=
   mkClient 4 false [GAuthorizationCode; GClientCredentials] ["code"] ["https://c4.example/cb"] "openid" CibaNone
-           false false true true false false false 0 false.
+           false false true true false false false 0 false None.
 Example ex_pairwise_tokens :
   (fst (make_token 3 ex_pw_client GAuthorizationCode), fst (make_token 3 ex_pw_client GClientCredentials))
   = (mint 3 KAtOpaque, mint 3 KAtJwt).
